@@ -17,7 +17,7 @@ Definition ex_beh (p k e : N) : outcome :=
   | 2, 0 => ODrop | 2, _ => OPass e
   | 3, 1 => OErr 9 | _, _ => OPass e
   end%N.
-Definition ex_e0 : N := 1%N.
+Definition ex_e0 : N -> N := fun _ => 1%N.
 
 Fixpoint first_enabled (ls : list label) (s : st) : option st :=
   match ls with
